@@ -26,8 +26,24 @@ ASSUMPTIONS = ["generate_qpd_weights is covered by C04; its returned dict (captu
 _cache = {}
 
 
+def _small_angle_case(rng):
+    """two cut rotations by small angles: the joint maps that combine the rare branches of both have probability between 1e-14 and 1e-8,
+    which an infinite budget must still list (C04/C05: everything above 1e-14, each coefficient exactly the product)"""
+    fams = [("rzz", 0.02), ("rxx", 0.004), ("crx", 0.01), ("cp", 0.02), ("ryy", -0.01), ("crz", 0.03)]
+    instrs = [workflow.gen.rand_1q(rng, 0), workflow.gen.rand_1q(rng, 1)]
+    for name, th in rng.sample(fams, 2):
+        qs = [0, 1] if rng.random() < 0.5 else [1, 0]
+        instrs.append({"name": name, "qubits": qs, "params": [th]})
+        instrs.append(workflow.gen.rand_1q(rng, rng.randrange(2)))
+    return {"nq": 2, "qregs": [2], "instrs": instrs, "labels": [0, 1], "pool_idx": rng.sample(range(len(workflow.gen.LABEL_POOL)), 2),
+            "obs": workflow.gen.rand_paulis(rng, 2, 2, "XYZ"), "idle": [], "part": [0, 1], "form": rng.choice(["dict", "single"]), "N": None,
+            "seed": rng.randrange(1 << 30), "always_oracle": True}
+
+
 def cases(rng, tier):
     N = 100 if tier == "quick" else 800
+    for _ in range(3 if tier == "quick" else 20):
+        yield ("generate", _small_angle_case(rng))
     for _ in range(N):
         r0 = rng.random()
         if r0 < 0.12:
@@ -257,6 +273,25 @@ def _oracle_contract(kind, payload):
                 return f"coefficient {rank} has sign {np.sign(c)} but the chosen maps' product is {act}"
             if payload["N"] is None and abs(c - act) > 1e-9:
                 return f"infinite budget: coefficient {c} != product of map coefficients {act}"
+    if payload["N"] is None and bases and int(np.prod([len(b.coeffs) for b in bases])) <= 20000:
+        # infinite budget: one coefficient per joint map of probability above 1e-14, each exactly the product of the maps' coefficients
+        import itertools
+        probs = [[abs(c) / b.kappa for c in b.coeffs] for b in bases]
+        want, borderline = [], False
+        for key in itertools.product(*[range(len(b.coeffs)) for b in bases]):
+            pr = float(np.prod([probs[i][k] for i, k in enumerate(key)]))
+            if 2e-15 < pr < 5e-14:
+                borderline = True   # too close to the cut-off to be decided in floating point
+            if pr >= 1e-14:
+                want.append(float(np.prod([b.coeffs[k] for b, k in zip(bases, key)])))
+        if not borderline:
+            got = sorted(float(c) for c, _ in coeffs)
+            want.sort()
+            if len(got) != len(want):
+                return f"infinite budget: {len(got)} coefficients, but {len(want)} joint maps have probability above 1e-14"
+            for a, b in zip(got, want):
+                if abs(a - b) > 1e-12 * max(1.0, abs(b)):
+                    return f"infinite budget: coefficient {a!r} is not the product of the chosen maps' coefficients {b!r}"
     it = exps.items() if isinstance(exps, dict) else [("A", exps)]
     for lab, cs in it:
         so = observables[lab] if isinstance(observables, dict) else observables
